@@ -165,8 +165,9 @@ def check_history(drv, r, carver, stats):
                     last = [sorted(set(to_label(v) for v in grp), key=labs.index) for grp in viable[-1]["combination"]]
                     fitted = [sorted(grp, key=labs.index) for grp in g]
                     # with dropna=False the missing-value modality stays apart and is not part of the tested combinations
-                    if carvecase.NAN in labs and not any(carvecase.NAN in grp for grp in last):
-                        fitted = [grp for grp in fitted if grp != [carvecase.NAN]]
+                    nan_marker = carver.str_nan
+                    if nan_marker in labs and not any(nan_marker in grp for grp in last):
+                        fitted = [grp for grp in fitted if grp != [nan_marker]]
                     if sorted(last) != sorted(fitted):
                         fail("last combination flagged viable is not the fitted grouping", feature=f, last_viable=last, fitted=fitted)
     return fails
